@@ -96,6 +96,14 @@ def cases(tier, rng):
             if v >= 1:   # an item longer than a whole bar that starts mid-bar would need two splits: outside the stated behaviour
                 yield Case("track.run", ["none", [["add", C4, 4], ["from_chords", cl, v]]], "from_chords/offset", kind=("from_chords_off", v))
         yield Case("track.run", ["Piano", [["from_chords", cl, 1]]], "from_chords/instrument", kind=("from_chords", 1))
+    # a section in another key and meter added as a bar in the MIDDLE of a track: the bars opened after it continue ITS key and
+    # meter (not the first bar's, not the default)
+    for first in ([["add", C4, 1]], [["add_bar", "Eb", 3, 4], ["add", C4, 2], ["add", C4, 4]], []):
+        for key, cnt, unit in (("D", 6, 8), ("f#", 2, 2), ("Bb", 5, 4), ("C", 3, 8)):
+            fill = [["add", C4, unit]] * (cnt + 2) + [["add", None, unit]] * cnt + [["plus", CHORD]]
+            yield Case("track.run", ["none", first + [["add_bar", key, cnt, unit]] + fill], "history/section-change", kind=("run",))
+            yield Case("track.run", ["none", first + [["add_bar", key, cnt, unit]] + fill + [["add_bar", "A", 4, 4]] + [["add", C4, 2]] * 3],
+                       "history/section-change", kind=("run",))
     for _ in range(150 if tier == "quick" else 1500):
         ops = []
         if rng.random() < 0.5:
@@ -105,8 +113,10 @@ def cases(tier, rng):
             v = rng.choice(VOC)
             if k < 0.85:
                 ops.append(["add", rng.choice([C4, CHORD, None, E3]), fl(v)])
-            elif k < 0.95:
+            elif k < 0.93:
                 ops.append(["plus", rng.choice([C4, CHORD])])
+            elif k < 0.96:
+                ops.append(["add_bar", rng.choice(["C", "Eb", "f#", "D"]), *rng.choice([(4, 4), (3, 4), (6, 8), (2, 2), (5, 8)])])
             else:
                 ops.append(["add", C4, rng.choice([F(1, 2), F(1, 4)])])
         yield Case("track.run", ["none", ops], "history/random", kind=("run",))
